@@ -21,6 +21,10 @@ class Loader:
         self.nout = nout
         self.path = path
         self.infile = utils.generate_fname(nout, path)
+        if nout == -1:
+            # The most recent output is chosen once: all files of this dataset
+            # come from the directory its metadata was read from
+            self.nout = int(self.infile.split("_")[-1])
         self.readers = {
             "amr": AmrReader(),
             "hydro": HydroReader(),
